@@ -209,15 +209,16 @@ class Run:
             while idx < len(paths) and len(running) < NPROC:
                 cmd = ["timeout", str(timeout), "coqc", "-Q", os.path.join(COQ, "theories"), "Mofun", "-Q", self.rundir,
                        "MofunGen", paths[idx]]
-                running.append((idx, subprocess.Popen(cmd, cwd=self.rundir, stdout=subprocess.PIPE,
-                                                      stderr=subprocess.STDOUT, text=True)))
+                outf = open(paths[idx] + ".out", "w")
+                running.append((idx, subprocess.Popen(cmd, cwd=self.rundir, stdout=outf, stderr=subprocess.STDOUT)))
+                outf.close()
                 idx += 1
             still = []
             for i, pr in running:
                 if pr.poll() is None:
                     still.append((i, pr))
                 else:
-                    results[i] = (pr.returncode, pr.stdout.read())
+                    results[i] = (pr.returncode, open(paths[i] + ".out").read())
             running = still
             if running:
                 time.sleep(0.05)
